@@ -1,0 +1,109 @@
+//go:build verif
+
+package refcount
+
+// Contracts for GoVC (see /verif/DESIGN.md). Comment-only: compiles to nothing.
+//
+// RefCount is a monitor: mtx guards ctx, refs, resolveCtx, resolveCtxCancel, nonce, waitCh, resolved, value,
+// valueErr and valueRel; keepUnref, target, targetErr and resolver are immutable. A Ref is immutable apart
+// from its atomic released flag.
+// One resolver at a time (C09): every resolve goroutine is identified by its doneCh (made in
+// startResolveLocked) and is given the doneCh of the previously started one (r.waitCh) to wait for.
+// Ghost: downer(ch) the RefCount, dpred(ch) the channel it waits for, drun(ch) the goroutine itself.
+//   D1  a doneCh is closed only after the channel it waited for was closed (and only by its own goroutine)
+//   callback 1 in resolve: the resolver is called only after the predecessor's doneCh is closed
+//   r.waitCh always is the doneCh of the most recently started resolve goroutine (it is never cleared)
+// so closed(ch) implies that goroutine ch and all earlier ones have left the resolver.
+//
+//@ ghostmap downer: ref -> ref once
+//@ ghostmap drun: ref -> ref owned
+//@ ghostmap dpred: ref -> ref by drun
+//
+//@ object RefCount
+//@   props C08 C09 C10 C13
+//@   lock mtx
+//@   guarded ctx, refs, resolveCtx, resolveCtxCancel, nonce, waitCh, resolved, value, valueErr, valueRel
+//@   immutable keepUnref, target, targetErr, resolver
+//@   inv N0[C09]: this.refs != nil && this.resolver != nil
+//@   inv N1[C09]: this.waitCh != nil ==> downer(this.waitCh) == this
+//@   inv N4[C09]: forall k: *Ref {in(this.refs, k)} :: in(this.refs, k) ==> k != nil
+//@   inv N2[C09]: this.resolveCtx != nil ==> this.resolveCtxCancel != nil
+//
+//@ object Ref
+//@   props C09 C13
+//@   immutable rc, cb
+//@   atomic rel
+//
+//@ ginv D0: forall ch: ref {downer(ch)} :: downer(ch) != nil ==> ch != nil && allocated(ch) && madein(ch, "(*RefCount).startResolveLocked")
+//@ ginv D1: forall ch: ref {downer(ch)} :: downer(ch) != nil && closed(ch) ==> drun(ch) == nil && (dpred(ch) != nil ==> closed(dpred(ch)))
+//@ ginv D2: forall ch: ref {drun(ch)} :: drun(ch) != nil ==> downer(ch) != nil && !closed(ch)
+//
+//@ func NewRefCount
+//@   props C09
+//@   opt frame = skip
+//@   opt constructor = RefCount
+//@   requires resolver != nil
+//@   ensures result != nil && objinv(result)
+//
+//@ func (*RefCount).SetContext
+//@   props C08 C09 C13
+//@   opt frame = skip
+//@   requires r != nil
+//
+//@ func (*RefCount).ClearContext
+//@   props C09
+//@   opt frame = skip
+//@   requires r != nil
+//
+//@ func (*RefCount).AddRef
+//@   props C08 C09 C13
+//@   opt frame = skip
+//@   requires r != nil
+//@   ensures result != nil
+//
+//@ func (*Ref).Release
+//@   props C08 C09 C13
+//@   opt frame = skip
+//@   requires k != nil && k.rc != nil
+//
+//@ func (*RefCount).removeRef
+//@   props C08 C09 C13
+//@   opt frame = skip
+//@   requires r != nil
+//
+//@ closure (*RefCount).shutdown
+//@   props C08 C09
+//
+//@ func (*RefCount).clearResolvedState
+//@   props C08 C09
+//@   opt holds = mtx
+//@   opt frame = skip
+//@   requires r != nil
+//
+//@ func (*RefCount).callRefCbsLocked
+//@   props C08 C09 C13
+//@   opt holds = mtx
+//@   opt frame = skip
+//@   requires r != nil
+//@   loop 1 invariant mine: forall ch: ref {drun(ch)} :: old(drun(ch)) == me ==> drun(ch) == me && dpred(ch) == old(dpred(ch))
+//@   ensures mine: forall ch: ref {drun(ch)} :: old(drun(ch)) == me ==> drun(ch) == me && dpred(ch) == old(dpred(ch))
+//
+//@ func (*RefCount).startResolveLocked
+//@   props C08 C09 C13
+//@   opt holds = mtx
+//@   opt frame = skip
+//@   requires r != nil
+//@   ghost go 1: downer(doneCh) := r
+//@   ghost go 1: drun(doneCh) := me
+//@   ghost go 1: dpred(doneCh) := waitCh
+//@   ghost go 1: drun(doneCh) := child
+//
+//@ func (*RefCount).resolve
+//@   props C08 C09 C13
+//@   opt frame = skip
+//@   opt inherits = drun
+//@   requires r != nil && ctx != nil && doneCh != nil && r.resolver != nil
+//@   requires mine: drun(doneCh) == me && downer(doneCh) == r && dpred(doneCh) == waitCh
+//@   assert select 1: selects(waitCh) && selects(done(ctx))
+//@   assert callback 1: handover: waitCh == nil || closed(waitCh)
+//@   ghost close *: drun(doneCh) := nil
